@@ -1,1 +1,123 @@
-// harnesses for synchronize (included into loom under cfg(loom_verif))
+// crate::rt::synchronize::verif -- view transfer lemmas (C02: no extra
+// happens-before; C03/C04: no missing happens-before).
+#![allow(dead_code, unused_imports)]
+
+use super::*;
+use crate::rt::thread::verif as tv;
+use crate::rt::verif::{le, max_raw, vharness, vv, vv_raw};
+#[cfg(not(kani))]
+use crate::rt::verif::kani_shim as kani;
+use crate::rt::MAX_THREADS;
+
+pub(crate) fn mk(raw: [u16; MAX_THREADS]) -> Synchronize {
+    Synchronize { happens_before: vv(raw) }
+}
+
+pub(crate) fn raw(s: &Synchronize) -> [u16; MAX_THREADS] {
+    vv_raw(&s.happens_before)
+}
+
+/// 0 Relaxed, 1 Release, 2 Acquire, 3 AcqRel, 4 SeqCst
+pub(crate) fn ordering(code: u8) -> Ordering {
+    match code {
+        0 => Relaxed,
+        1 => Release,
+        2 => Acquire,
+        3 => AcqRel,
+        _ => SeqCst,
+    }
+}
+
+fn load_case(active: usize) {
+    let mut set = tv::mk_set(3);
+    tv::activate(&mut set, active);
+    tv::havoc_clocks(&mut set, 3);
+    let seq: [u16; MAX_THREADS] = kani::any();
+    set.seq_cst_causality = vv(seq);
+    let cell: [u16; MAX_THREADS] = kani::any();
+    let code: u8 = kani::any();
+    kani::assume(code <= 4);
+    let before_c = [vv_raw(&tv::th_ref(&set, 0).causality), vv_raw(&tv::th_ref(&set, 1).causality), vv_raw(&tv::th_ref(&set, 2).causality)];
+    let before_r = [vv_raw(&tv::th_ref(&set, 0).released), vv_raw(&tv::th_ref(&set, 1).released), vv_raw(&tv::th_ref(&set, 2).released)];
+    let mut s = mk(cell);
+    s.sync_load(&mut set, ordering(code));
+    // the cell itself never changes on a load
+    assert!(raw(&s) == cell);
+    // reference: acquire-class orderings (Acquire, AcqRel, SeqCst) join the
+    // cell into the reader; Relaxed / Release transfer nothing
+    let acquires = code >= 2;
+    let mut t = 0;
+    while t < 3 {
+        let c = vv_raw(&tv::th_ref(&set, t).causality);
+        if t == active && acquires {
+            assert!(c == max_raw(&before_c[t], &cell));
+        } else {
+            assert!(c == before_c[t]);
+        }
+        assert!(vv_raw(&tv::th_ref(&set, t).released) == before_r[t]);
+        t += 1;
+    }
+    // SeqCst accesses behave as acquire/release only (README): the global
+    // SC-fence view is untouched
+    assert!(vv_raw(&set.seq_cst_causality) == seq);
+    kani::cover!(acquires && !le(&cell, &before_c[active]), "acquire learns something");
+    kani::cover!(!acquires && !le(&cell, &before_c[active]), "relaxed load of a newer view");
+    std::mem::forget(set);
+}
+
+fn store_case(active: usize) {
+    let mut set = tv::mk_set(3);
+    tv::activate(&mut set, active);
+    tv::havoc_clocks(&mut set, 3);
+    let seq: [u16; MAX_THREADS] = kani::any();
+    set.seq_cst_causality = vv(seq);
+    let cell: [u16; MAX_THREADS] = kani::any();
+    let code: u8 = kani::any();
+    kani::assume(code <= 4);
+    let cur = vv_raw(&tv::th_ref(&set, active).causality);
+    let rel = vv_raw(&tv::th_ref(&set, active).released);
+    let before_c = [vv_raw(&tv::th_ref(&set, 0).causality), vv_raw(&tv::th_ref(&set, 1).causality), vv_raw(&tv::th_ref(&set, 2).causality)];
+    let mut s = mk(cell);
+    s.sync_store(&mut set, ordering(code));
+    // reference: every store carries the writer's last release-fence view;
+    // release-class orderings (Release, AcqRel, SeqCst) carry its full view
+    let releases = code == 1 || code >= 3;
+    let expect = if releases { max_raw(&max_raw(&cell, &rel), &cur) } else { max_raw(&cell, &rel) };
+    assert!(raw(&s) == expect);
+    // a store never changes any thread's own view
+    let mut t = 0;
+    while t < 3 {
+        assert!(vv_raw(&tv::th_ref(&set, t).causality) == before_c[t]);
+        t += 1;
+    }
+    assert!(vv_raw(&tv::th_ref(&set, active).released) == rel);
+    assert!(vv_raw(&set.seq_cst_causality) == seq);
+    kani::cover!(releases && !le(&cur, &cell), "release publishes something");
+    kani::cover!(!releases && !le(&cur, &max_raw(&cell, &rel)), "relaxed store keeps the writer's newer view private");
+    kani::cover!(code == 2 && !le(&rel, &cell), "acquire-ordered store still carries the release-fence view");
+    std::mem::forget(set);
+}
+
+vharness! {
+    /// @prop C02,C03,C04 @tier quick @mode full @funcs Synchronize::sync_load,Synchronize::sync_acq,Set::seq_cst @bounds all clocks of 3 threads + cell + SC view (all u16 values), all 5 orderings, active thread 0
+    /// sync_load joins the cell into the reader exactly for Acquire/AcqRel/SeqCst and changes nothing else (no other thread, not `released`, not the SC-fence view).
+    fn sync_load_exact_t0() { load_case(0) }
+}
+
+vharness! {
+    /// @prop C02,C03,C04 @tier quick @mode full @funcs Synchronize::sync_load @bounds as sync_load_exact_t0, active thread 2
+    /// sync_load lemma for a non-initial active thread.
+    fn sync_load_exact_t2() { load_case(2) }
+}
+
+vharness! {
+    /// @prop C02,C03,C04 @tier quick @mode full @funcs Synchronize::sync_store,Synchronize::sync_rel,Set::seq_cst @bounds all clocks of 3 threads + cell + SC view, all 5 orderings, active thread 0
+    /// sync_store adds exactly the release-fence view (always) and the full view (Release/AcqRel/SeqCst) to the cell and changes no thread.
+    fn sync_store_exact_t0() { store_case(0) }
+}
+
+vharness! {
+    /// @prop C02,C03,C04 @tier quick @mode full @funcs Synchronize::sync_store @bounds as sync_store_exact_t0, active thread 1
+    /// sync_store lemma for a non-initial active thread.
+    fn sync_store_exact_t1() { store_case(1) }
+}
